@@ -86,3 +86,11 @@ Theorem C07_decoupled_value_is_variance_over_cost : forall cov e costs,
   gen_max_variance_decoupled cov e (Some costs) = nth e (mat_diag cov) 0 / nth e costs 0.
 Proof. intros. split; reflexivity. Qed.
 Print Assumptions C07_decoupled_value_is_variance_over_cost.
+
+(* the pooled candidates of optimize_decoupled_acqf_discrete REGENERATED from the source (per objective, the picks of the
+   single-objective optimiser labelled with the objective they were ranked for) are the model's pool; selecting the q best of
+   it is selecting the q best (design, objective) pairs of the whole table (C07_decoupled_is_global_topq) *)
+Theorem C07_regenerated_decoupled_pool_is_the_model : forall q tables,
+  gen_decoupled_pool q tables = per_objective q tables /\ gen_decoupled_take q (gen_decoupled_pool q tables) = Nat.min q (length (per_objective q tables)).
+Proof. intros q tables. rewrite gen_decoupled_pool_is_model. split; reflexivity. Qed.
+Print Assumptions C07_regenerated_decoupled_pool_is_the_model.
